@@ -474,7 +474,12 @@ func (e *SpecEnv) call(n *ast.CallExpr) Value {
 		if a.IsConst() && a.Val.IsInt64() && a.Val.Int64() >= 0 && a.Val.Int64() < 4096 {
 			return IntV{Const(pow2(int(a.Val.Int64())))}
 		}
-		return IntV{App("pow2", SInt, a)}
+		pw := App("pow2", SInt, a)
+		// defining facts on the range of shift amounts
+		for i := 0; i <= 64; i++ {
+			e.fact(Implies(Eq(a, ConstI(int64(i))), Eq(pw, Const(pow2(i)))))
+		}
+		return IntV{pw}
 	case "same":
 		a, b := e.slice(arg(0)), e.slice(arg(1))
 		return BoolV{Eq(a.Addr, b.Addr)}
